@@ -32,6 +32,6 @@ CONFIG = {
                     "yamux detects a dead/frozen peer within keep-alive interval + write timeout (40 s); grpc-go honours context deadlines",
                     "with several concurrent Kills the later ones find the protocol client already closed and may force-kill at once: only 'returns, dead, exited' are compared there"],
     "timeout": {"quick": 900, "thorough": 3000},
-    "level_text": "Lean theorems over a model of one Client.Kill call (Model/Kill.lean: the shutdown RPC of each protocol and what bounds it, the grace select, the force kill, the deferred wait) for BOTH protocols x EVERY shutdown behaviour (exits quickly, too slowly, ignores, frozen, already dead) x reply-lost or not x handshake completed or not x protocol client available or not: Kill returns within the RPC's own bound plus the 2 s grace period (kill_terminates), the process has exited and Exited() is true when it returns (kill_leaves_dead), a plugin that exits on its own shortly after the request is not force-killed and finishes its cleanup — even if its reply was lost (graceful_not_forced), one that does not is force-killed after the grace period (forced_after_grace); on the Lifecycle model a completed Kill leaves no runner and further Kills are no-ops (kill_idempotent). Witnesses: without a deadline on the gRPC shutdown RPC a frozen plugin makes Kill hang (former defect D3); if a lost Quit reply counts as a failed close an exiting net/rpc plugin is force-killed (former defect, the repository's own flaky tests). Five facts re-extracted each run; ~75 real-process cells per run compared with the model. Also: a Kill overlapping another returns only when the process is gone and Exited() is true (overlapping_kill_leaves_dead; fact: c.runner is cleared only after the deferred wait; witness); concurrent Kills are staggered and checked at every return; managed clients of every launch method under CleanupClients. Fifth round: a custom runner whose Start fails after it created the process is still ended by Kill / CleanupClients (fact runnerKeptBeforeStart; failed_runner_start_is_killed, runner_dropped_witness; cells beh=startfails), a busy gRPC plugin with one second of clean-up is not force-killed (fact grpcStopImmediate; busy_plugin_finishes_cleanup, drain_first_witness; cells beh=busy1000), commands carrying process attributes of their own (launch=cmdattr). CleanupClients: for ANY list of managed clients in any mix of states, every plugin has exited and is reported as exited when CleanupClients returns, within the slowest single Kill's bound (cleanup_clients_all_dead, by induction over the list; facts: NewClient registers managed clients at construction, the loop starts a Kill goroutine for every element, wg.Wait follows; cleanup_witnesses); cell C04.cleanup-mixed: eight managed clients in eight different states, one call. Sixth round: launch=reattach-far cells (the plugin was launched by another process).",
+    "level_text": "Lean theorems over a model of one Client.Kill call (Model/Kill.lean: the shutdown RPC of each protocol and what bounds it, the grace select, the force kill, the deferred wait) for BOTH protocols x EVERY shutdown behaviour (exits quickly, too slowly, ignores, frozen, already dead) x reply-lost or not x handshake completed or not x protocol client available or not: Kill returns within the RPC's own bound plus the 2 s grace period (kill_terminates), the process has exited and Exited() is true when it returns (kill_leaves_dead), a plugin that exits on its own shortly after the request is not force-killed and finishes its cleanup — even if its reply was lost (graceful_not_forced), one that does not is force-killed after the grace period (forced_after_grace); on the Lifecycle model a completed Kill leaves no runner and further Kills are no-ops (kill_idempotent). Witnesses: without a deadline on the gRPC shutdown RPC a frozen plugin makes Kill hang (former defect D3); if a lost Quit reply counts as a failed close an exiting net/rpc plugin is force-killed (former defect, the repository's own flaky tests). Five facts re-extracted each run; ~75 real-process cells per run compared with the model. Also: a Kill overlapping another returns only when the process is gone and Exited() is true (overlapping_kill_leaves_dead; fact: c.runner is cleared only after the deferred wait; witness); concurrent Kills are staggered and checked at every return; managed clients of every launch method under CleanupClients. Fifth round: a custom runner whose Start fails after it created the process is still ended by Kill / CleanupClients (fact runnerKeptBeforeStart; failed_runner_start_is_killed, runner_dropped_witness; cells beh=startfails), a busy gRPC plugin with one second of clean-up is not force-killed (fact grpcStopImmediate; busy_plugin_finishes_cleanup, drain_first_witness; cells beh=busy1000), commands carrying process attributes of their own (launch=cmdattr). CleanupClients: for ANY list of managed clients in any mix of states, every plugin has exited and is reported as exited when CleanupClients returns, within the slowest single Kill's bound (cleanup_clients_all_dead, by induction over the list; facts: NewClient registers managed clients at construction, the loop starts a Kill goroutine for every element, wg.Wait follows; cleanup_witnesses); cell C04.cleanup-mixed: eight managed clients in eight different states, one call. Sixth round: launch=reattach-far cells (the plugin was launched by another process). Eighth round: overlapping Kills keep the grace period (Kill.OverlapParams.serialised; overlapping_kill_keeps_grace, overlapping_kill_witness; cells beh=fast500 pattern=concurrent; found and guard the repaired defect D20); the not-forced and clean-up predicates apply to every call pattern.",
     "level_note": "Partial: process termination and reaping are OS behaviour; the bounds for a frozen peer are the libraries' (yamux keep-alive, gRPC deadline). The model is a finite decision table (proved by exhaustive case analysis in the kernel), tied to Kill's straight-line code by the extracted facts and the real-process cells.",
 }
